@@ -25,8 +25,12 @@ static std::vector<int32_t> messages(int32_t M, int extra) {
 static void lwe_part(bool thorough) {
     int ns[] = {1, 2, 7, 8, 9, 16, 500, 630, 1024};
     std::vector<int32_t> Ms = {2, 3, 4, 5, 7, 8, 16, 100, 1000, 1024, 1 << 12, 1 << 16, 1 << 20};
-    for (int n: ns) {
-        LweParams *P = new_LweParams(n, 1e-9, 0.25);
+    for (int n: ns) for (int pv = 0; pv < 2; pv++) {
+        // two parameter objects per dimension: negligible advisory noise bounds, and the bounds of the documented gate sets
+        // (the requested noise level, not the parameter set's advisory minimum, is what an encryption must use)
+        double amin = pv == 0 ? 1e-9 : (n == 500 ? 2.44e-5 : ldexp(1., -15)), amax = pv == 0 ? 0.25 : 0.012467;
+        if (pv == 1 && !(n == 500 || n == 630 || n == 8 || n == 1)) continue;
+        LweParams *P = new_LweParams(n, amin, amax);
         int nkeys = thorough ? 4 : 2;
         for (int kk = 0; kk < nkeys; kk++) {
             LweKey *K = new_LweKey(P); lweKeyGen(K);
@@ -47,7 +51,7 @@ static void lwe_part(bool thorough) {
                                     .d("phase_error_units", (double) (int32_t) (ref_lwe_phase(c, K->key, n) - (U) mu)));
                         if (c->current_variance != alpha * alpha) out.viol("decrypt:lwe-variance-annotation", J().i("n", n).d("alpha", alpha).d("variance", c->current_variance));
                     }
-                    char cell[96]; snprintf(cell, sizeof cell, "lwe:n=%d:M=%d:alpha=%s", n, M, acls_name[ac]); out.cell(cell);
+                    char cell[96]; snprintf(cell, sizeof cell, "lwe:n=%d:%s:M=%d:alpha=%s", n, pv ? "gate-set-bounds" : "tiny-bounds", M, acls_name[ac]); out.cell(cell);
                 }
             }
             delete_LweSample(c); delete_LweKey(K);
